@@ -16,6 +16,9 @@ REPO = os.environ.get("VERIF_REPO", "/repo")
 SPEC = os.path.join(ROOT, "spec")
 OVERLAY = os.path.join(ROOT, "harness", "overlay")
 EVID = os.path.join(ROOT, "evidence")
+if os.path.realpath(REPO) != "/repo":
+    # runs against a scratch tree (seeded changes) keep their evidence away from the evidence of /repo itself
+    EVID = os.path.join(ROOT, ".work", "evidence-scratch")
 NCPU = os.cpu_count() or 4
 
 
